@@ -501,3 +501,12 @@ def z9_difference(ctx):
 
 
 RULES = [('Z1', z1_protocol), ('Z2', z2_east_sites), ('Z3', z3_table), ('Z4', z4_as_time), ('Z5', z5_ambient), ('Z6', z6_set_timezone), ('Z7', z7_literal), ('Z8', z8_arith), ('Z9', z9_difference)]
+
+
+def z10_unique_fields(ctx):
+    """Z10 a pattern that names two fields alike loses one of the matched tokens (shared rule)"""
+    from ..common import unique_field_names
+    unique_field_names(ctx, 'Z10', ('time_with_timezone', 'convert_timezone'), floor=2)
+
+
+RULES.append(('Z10', z10_unique_fields))
